@@ -11,6 +11,7 @@ from ..storejudge import decode_store, expected_post_codes, STORE_OPS, init_argu
 from .c06 import int_bits
 
 ID = 'C17'
+TECHNIQUE = 'runtime monitoring: stores into / reads of / resizes of / equal() and like() between scaled objects judged against the exact affine model around exact quantization'
 TITLE = 'scale and bias: exact affine wrapper'
 RULE = ('store events on objects created with scale s and bias b (constructor, call, set_val, indexed assignment): the stored codes must equal '
         'refmodel.quantize((v-b)/s) in the object\'s format and modes, the status flags must be those of the unscaled value (v-b)/s, reads (get_val, '
